@@ -21,9 +21,10 @@ from .common import Check, Driver, proof_stage, rng_for
 
 PROP = "C01"
 MODULE = "PV.Props.C01"
-MODULE_CORE = "PV.Props.C01Core"
+MODULE_CORE = "PV.Props.C01Strip"
 THEOREMS = ([f"PV.Props.C01.{t}" for t in ["tables_cover", "cmp_set_correct", "branch_neg_correct", "negated_table_negates", "branch_variant_table"]]
-            + ["PV.Core.sim"] + [f"PV.Props.C01Core.{t}" for t in ["compile_correct_done", "compile_correct_running", "pairsOk_sound", "real_pairs_negate", "negOk_of_real_tables"]])
+            + ["PV.Core.sim"] + [f"PV.Props.C01Core.{t}" for t in ["compile_correct_done", "compile_correct_running", "goodB_sound", "real_pairs_negate", "good_of_real_tables", "compProg_proc"]]
+            + [f"PV.Props.C01Strip.{t}" for t in ["comp_ok", "compile_correct_running_stripped", "compile_correct_done_stripped"]])
 
 N = float
 
@@ -85,8 +86,8 @@ def run(tier: str, seed: int) -> int:
             failures.append({"what": f"regression corpus ({rid}): " + (f"emitted code and source disagree: {d['verdict']}" if st == "bad" else f"not comparable any more ({st})"),
                              "profile": "regression", "src": rsrc, "prog": progen.jprogram(rprog), "opts": whole.default_opts(append_version=False),
                              "env_seed": (d or {}).get("env_seed", 1), "pool": [0.0, 1.0, 2.0, 5.0, 6.0, 7.0], "budget": budget, "code": (d or {}).get("code")})
-    plan = [("core", 240 if tier == "quick" else 12000), ("funcs", 120 if tier == "quick" else 6000), ("calls", 160 if tier == "quick" else 8000)]
-    n_env = 3 if tier == "quick" else 8
+    plan = [("core", 240 if tier == "quick" else 2400), ("funcs", 120 if tier == "quick" else 1200), ("calls", 160 if tier == "quick" else 1600)]
+    n_env = 3 if tier == "quick" else 5
     feats = {}
     for kind, n in plan:
         for i in range(n):
@@ -122,22 +123,28 @@ def run(tier: str, seed: int) -> int:
     # renamed by first occurrence, labels as the no-op lines they occupy, jump targets as line numbers), `comp (flatten src)`;
     # `compile_correct_done/running` then speak about the real code.  `flatten` itself (unproved) is run under the core
     # reference semantics against PV.Src on the same environment.
-    n_core = 150 if tier == "quick" else 6000
+    n_core = 150 if tier == "quick" else 1500
     diffs = []
-    for i in range(n_core):
+    for i in range(n_core + n_core // 2):
         if len(failures) >= 3:
             break
-        g, prog, src, pool = whole.gen_program(r, "incore")
-        opts = whole.default_opts(append_version=False)
+        # function-free programs, and (last third) programs with leaf functions compiled out of line
+        with_funcs = i >= n_core
+        g, prog, src, pool = whole.gen_program(r, "incoref" if with_funcs else "incore")
+        opts = whole.default_opts(append_version=False, inline_functions=not with_funcs)
         res, cap = whole.compile_captured(src, opts)
         if "error" in res or not cap.lines:
             chk.bump("incore:compile-error")
             continue
         vtext = c04.texts(cap)[0]
         v = drv.call(cmd="core-compare", prog=progen.jprogram(prog), text=vtext, seed=r.randrange(1 << 30), fuel=budget["fuel"], pool=pool)
-        chk.bump("incore:" + v["verdict"])
+        chk.bump(("incoref:" if with_funcs else "incore:") + v["verdict"])
         if v["verdict"] == "same":
             chk.count(("incore", src), nontrivial=True)
+            # the next link of the chain: the real register allocation of this program, judged by the validator of C04
+            # (`checkAlloc_sound_static`: accepted ⇒ the allocated code runs in lock step with the pre-allocation code)
+            av = c04.validator_verdict(drv, cap)
+            chk.bump("incore:alloc-" + av.get("verdict", "?"))
         elif v["verdict"] in ("differ", "length", "parse-error"):
             # correspondence broken for this program: is the property broken on it?
             envs = [r.randrange(1 << 30) for _ in range(8)]
